@@ -378,7 +378,10 @@ def run_sim(binary, args=(), nodes=1, ppn=1, env=None, sim_seed=1, policy="unifo
         e["SIMMPI_AS_MB"] = "6144"     # a runaway handler must not eat the machine (not for sanitizer builds)
     e.pop("SIMMPI_LOG", None)
     if env:
-        e.update({k: str(v) for k, v in env.items()})
+        e.update({k: str(v) for k, v in env.items() if v is not None})
+        for k, v in env.items():
+            if v is None:
+                e.pop(k, None)          # None = leave this variable UNSET (library default)
     tmpd = tempfile.mkdtemp(prefix="ygmverif-")
     logp = os.path.join(tmpd, "wire.log")
     if want_log:
